@@ -223,17 +223,20 @@ func (a *apiServer) SetStreamReadonly(ctx context.Context, req *client.SetStream
 // subscribed to a given partition at a time. Use the request context to close
 // the subscription.
 func (a *apiServer) Subscribe(req *client.SubscribeRequest, out client.API_SubscribeServer) error {
-	sub, err := a.SubscribeInternal(out.Context(), req)
-	if err != nil {
-		return err
-	}
-	defer sub.Close()
-
+	// Authorize before creating the subscription: creating it may resume a
+	// paused partition and takes over the partition from the consumer group's
+	// current subscriber.
 	e := a.ensureAuthorizationPermission(out.Context(), req.Stream, "Subscribe")
 	if e != nil {
 		a.logger.Errorf("api: Failed to authorize call on resource: %v", e)
 		return e
 	}
+
+	sub, err := a.SubscribeInternal(out.Context(), req)
+	if err != nil {
+		return err
+	}
+	defer sub.Close()
 	// Send an empty message which signals the subscription was successfully
 	// created.
 	if err := out.Send(&client.Message{}); err != nil {
@@ -1103,6 +1106,7 @@ func (p *publishAsyncSession) publishLoop() error {
 			p.logger.Errorf("api: Failed to authorize call on resource: %v", err)
 			permissionDeniedAsyncError := &client.PublishAsyncError{Code: client.PublishAsyncError_PERMISSION_DENIED, Message: err.Error()}
 			p.sendPublishAsyncError(req.CorrelationId, permissionDeniedAsyncError)
+			continue
 		}
 
 		if e := p.ensurePublishPreconditions(req); e != nil {
